@@ -119,9 +119,9 @@ def runOps (t : Tree) : Run → List (Option Op) → List String × List String 
       | .fin _ => false)
     let (s', res) := step t r.s op
     let (p', sres) := r.p.step t op
-    let failed := r.failed || res = "e-digest:already" || res = "e-forced:pending"
-    let m := res ++ " " ++ pubModel t s' ++ " # " ++ privModel s'
-    let sp := if oos then m else sres ++ " " ++ pubSpec t p' ++ " # " ++ privModel s'
+    let failed := r.failed || res = .eDigest .already || res = .eForced .pending
+    let m := res.str ++ " " ++ pubModel t s' ++ " # " ++ privModel s'
+    let sp := if oos then m else sres.str ++ " " ++ pubSpec t p' ++ " # " ++ privModel s'
     let (ms, ss, clean, tainted) := runOps t { s := s', p := p', oos := oos, failed := failed } ops
     (m :: ms, sp :: ss, clean || (sp != m && !failed), tainted || (sp != m && failed))
 
